@@ -272,6 +272,19 @@ for _k in KINDS5:
         def _r8(e, k=k):
             X = e.holder(k)
             return f"{k}.mttkrp", X.mttkrp, (e.factors(2), e.N + int(e.rng.integers(0, 2))), {}, X, {}
+
+        @row(f"{k}.mttkrp:kruskal-operand-wrong-order", (2, 3))
+        def _r9(e, k=k):
+            # the factors handed over as a Kruskal tensor of another order: surplus trailing modes (of size 1 or more) whose leading modes
+            # fit, or a trailing mode missing
+            X = e.holder(k)
+            U = e.factors(2)
+            c = int(e.rng.integers(0, 3))
+            U = U + [gen.normals(e.rng, (1 if c == 0 else int(e.rng.integers(2, 4)), 2))] if c < 2 else U[:-1]
+            n = [0, e.N - 1, int(e.rng.integers(0, e.N))][int(e.rng.integers(0, 3))]
+            if c == 2:
+                n = 0
+            return f"{k}.mttkrp", X.mttkrp, (ttb.ktensor(U, np.array([1.0, 2.0])), n), {}, X, {"surplus": ["singleton", "longer", "missing"][c]}
     _mkC(_k)
 
 for _k in ("tensor", "sptensor", "ttensor"):
@@ -425,6 +438,19 @@ for _k in ("tensor", "sptensor"):
             X = e.holder(k)
             d = int(e.rng.integers(0, e.N))
             return f"{k}.scale", X.scale, (gen.normals(e.rng, (_bad_len(e, e.shape[d]),)), np.array([d])), {}, X, {}
+
+        if k == "tensor":
+            @row("tensor.scale:same-count-wrong-shape", (2, 3))
+            def _r5b(e, k=k):
+                # scaling over two modes of unequal size with a factor of the right element count but another shape: transposed, flattened,
+                # re-factored, or with an extra singleton mode
+                e.shape = tuple([3, 4] + list(e.shape[2:]))
+                X = e.holder(k)
+                f = gen.normals(e.rng, (3, 4))
+                c = int(e.rng.integers(0, 4))
+                g = [f.T.copy(), f.reshape(-1).copy(), f.reshape(2, 6).copy(), f.reshape(3, 1, 4).copy()][c]
+                return "tensor.scale", X.scale, (ttb.tensor(g) if (g.ndim > 1 and e.rng.random() < 0.5) else g, np.array([0, 1])), {}, X, \
+                    {"form": ["transposed", "flattened", "refactored", "extra-singleton"][c]}
 
         @row(f"{k}.mask:mask-bigger-than-tensor")
         def _r6(e, k=k):
